@@ -335,6 +335,10 @@ def run_solver(case):
         for stage, n in plan:
             if stage == 2 and n == 0:
                 time = 0.0
+                if case["screening"]:
+                    # the new stage is handed a state other than the one the operators were left with (a run continued from a
+                    # stored solution): the first iteration must use the induced potential it is given
+                    vals[4] = 0.5 * np.asarray(vals[4])
             # fail_last: the last step of stage 1 fails after its refresh (a refused update at a fixed time step raises); the
             # next stage starts on the same solver (a second solve() after a failed one)
             inject["refuse"] = bool(case.get("fail_last") and stage == 1 and n == L)
